@@ -332,27 +332,48 @@ func (s *Solver) prRef(name string) string {
 	return "|" + strings.NewReplacer("|", "_", "\\", "_").Replace(name) + "|"
 }
 
-// parseValues parses "((|a| #x00ff) (|b| true) ...)".
+// parseValues parses "((|a| #x00ff) (b true) ...)": a list of (symbol value) pairs; symbols may
+// be |quoted| or plain.
 func parseValues(text string, out map[string]uint64) {
-	i := 0
-	n := len(text)
+	i, n := 0, len(text)
+	// skip to the outer "("
+	for i < n && text[i] != '(' {
+		i++
+	}
+	i++
 	for i < n {
-		// find "(|"
-		k := strings.Index(text[i:], "(|")
-		if k < 0 {
+		for i < n && text[i] != '(' {
+			if text[i] == ')' {
+				return
+			}
+			i++
+		}
+		if i >= n {
 			return
 		}
-		i += k + 2
-		e := strings.IndexByte(text[i:], '|')
-		if e < 0 {
-			return
-		}
-		name := text[i : i+e]
-		i += e + 1
+		i++ // past "("
 		for i < n && text[i] == ' ' {
 			i++
 		}
-		// value until matching ')'
+		var name string
+		if i < n && text[i] == '|' {
+			e := strings.IndexByte(text[i+1:], '|')
+			if e < 0 {
+				return
+			}
+			name = text[i+1 : i+1+e]
+			i += e + 2
+		} else {
+			j := i
+			for j < n && text[j] != ' ' && text[j] != ')' {
+				j++
+			}
+			name = text[i:j]
+			i = j
+		}
+		for i < n && text[i] == ' ' {
+			i++
+		}
 		depth := 0
 		j := i
 		for j < n {
@@ -366,9 +387,8 @@ func parseValues(text string, out map[string]uint64) {
 			}
 			j++
 		}
-		val := strings.TrimSpace(text[i:j])
+		out[name] = parseVal(strings.TrimSpace(text[i:j]))
 		i = j + 1
-		out[name] = parseVal(val)
 	}
 }
 
